@@ -190,7 +190,12 @@ def final_formulae(run, cases):
         rD = np.array(v[:nb ** 3]).reshape(nb, nb, nb)
         rT, rV = np.array(v[nb ** 3:nb ** 3 + nb]), np.array(v[nb ** 3 + nb:])
         iq, iqh = impl_matrices(c)
-        charges = [0] * (nb - 1) + [-1]
+        # charge numbers of the heavy species (collision integrals are prescribed, so they enter the electrical conductivity only):
+        # ions of either sign anywhere in the list, the first listed species charged in half of the cases; electrons last
+        crng = random.Random(repr((c["T"], c["masses"][0], nb)))
+        charges = [crng.choice([0, 0, 1, 2, -1]) for _ in range(nb - 1)] + [-1]
+        if nb > 1 and crng.random() < 0.5:
+            charges[0] = crng.choice([1, 2, -1])
         duck = Duck(c["masses"], c["nd"], c["T"], charges)
         rho, ntot = duck.calculate_density(), float(np.sum(c["nd"]))
         try:
